@@ -643,6 +643,11 @@ func (s *BgpServer) prePolicyFilterpath(peer *peer, path, old *table.Path) (*tab
 		}
 		if table.CanImportToVrf(vrf, path) {
 			path = path.ToLocal()
+		} else if old != nil && !path.IsWithdraw && table.CanImportToVrf(vrf, old) {
+			// The new best path is not imported by this VRF but the one it
+			// replaces was, and may have been sent: withdraw it.
+			path = old.ToLocal().Clone(true)
+			old = nil
 		} else {
 			return nil, nil, true
 		}
